@@ -708,7 +708,12 @@ func (r *Real) RunOps() []string {
 		case "help":
 			var b strings.Builder
 			var pan interface{}
-			got := withCols(op.Cols, func() { pan = safe(func() { r.p.WriteHelp(&b) }) })
+			got := op.Cols
+			if ptyOK {
+				got = withCols(op.Cols, func() { pan = safe(func() { r.p.WriteHelp(&b) }) })
+			} else {
+				pan = safe(func() { r.p.WriteHelp(&b) })
+			}
 			if got != op.Cols {
 				out = append(out, fmt.Sprintf("HELP WIDTH-NOT-APPLIED %d", got))
 			} else if pan != nil {
